@@ -67,6 +67,9 @@ impl TableRefresh {
             )
         };
 
+        #[cfg(btdht_verif)]
+        crate::verif::counters::refresh_round(this_node_id);
+
         tracing::debug!(
             "Performing a refresh for bucket {} (table total: num_good_nodes={}, num_questionable_nodes={})",
             self.curr_refresh_bucket,
